@@ -397,7 +397,18 @@ void VfRun::oracle_read(Handle &H, const OpRes &r, bool is_int, const Rec &op) {
   }
   check(r.section == link, P(), site, "wrong-section", fmt("section=%d model=%d", r.section, link));
   if (H.seekable) check(r.t1 <= r.t0 + ((int64_t)r.ret << hs) && r.t1 >= r.t0 + ((int64_t)r.ret << hs) - (hs ? odd_links() : 0), P(), site, "tell-advance", fmt("%lld->%lld ret=%ld hs=%d", (long long)r.t0, (long long)r.t1, r.ret, hs));
-  else H.lin_off += r.ret;
+  else {
+    // streaming handles report a position too (within the link being played): inside a plain encoder-made link it advances by exactly what was returned
+    // (two per sample at half rate), and in the first link it is the number of samples delivered so far
+    const Recipe &lrp = sr.ps.links[(size_t)link]->r;
+    // (first link only: in a later link of a streaming chain the position first runs on from the previous link and is re-anchored at the link's first page end)
+    if (!H.io_dirty && !sr.hole && link == 0 && off > 0 && !lrp.trim && !lrp.cut && !lrp.bs64 && !lrp.craft) {
+      check(r.t1 - r.t0 == ((int64_t)r.ret << hs), P(), site, "tell-advance", fmt("streaming: %lld->%lld ret=%ld hs=%d", (long long)r.t0, (long long)r.t1, r.ret, hs), {{"streaming", "1"}});
+      check(r.t0 == (off << hs), P(), site, "streaming-position", fmt("tell=%lld after %lld samples of the first link (hs=%d)", (long long)r.t0, (long long)off, hs));
+      g_stats.inc("probe.streaming_position_checked");
+    }
+    H.lin_off += r.ret;
+  }
   g_stats.inc("probe.read_float_compared"); compared_after_seek |= H.just_sought; H.reads_since_seek++;
   if (link > 0) g_stats.inc("probe.read_in_later_link");
 }
